@@ -27,8 +27,13 @@ def gen_opts(rng):
 
 
 class Oracle(simcheck.BaseOracle):
+    def before_action(self, run, sidx, market, action, order, state):
+        if action[0] == "update" and order is not None and getattr(order.order_type, "persistence_type", None) is not None:
+            self.old_pers.setdefault(order._vidx, order.order_type.persistence_type)
+
     def __init__(self, sc):
         super().__init__(sc)
+        self.old_pers = {}
         self.seen_r = simworld.seen_runners(sc)
         self.index = {}
         for mi, m in enumerate(sc["markets"]):
@@ -102,7 +107,10 @@ class Oracle(simcheck.BaseOracle):
                 self.arrival[o._vidx] = ui
                 self.queue[o._vidx] = Fraction(0) if crossed else q
             passive = [f for f in new if f[0] == pt and frac(f[2]) != 0]
-            sp_update = mb.bsp_reconciled and o.order_type.persistence_type == "MARKET_ON_CLOSE"
+            # the persistence the order had when this update's matching pass ran (an update request made in this
+            # update's callback changes order_type.persistence_type at once, after the pass)
+            pers = self.old_pers.pop(o._vidx, o.order_type.persistence_type)
+            sp_update = mb.bsp_reconciled and pers == "MARKET_ON_CLOSE"
             if sp_update or o._vidx not in self.arrival:
                 continue
             d = deltas.get(o.selection_id, {})
